@@ -11,47 +11,53 @@ EXTENDS Relay, Json, IOUtils, TLCExt
 TraceLog == ndJsonDeserialize(IOEnv.VERIF_TRACE)
 NoChunks == <<>>
 
-VARIABLES l, dS, dC     \* dS/dC: how much of sin/cout the writers have delivered so far
-tvars == <<vars, l, dS, dC>>
+VARIABLES l, dS, dC,    \* dS/dC: how much of sin/cout the writers have delivered so far
+          ldI, ldO      \* the load hook of the chunk in hand has been seen (In / Out)
+tvars == <<vars, l, dS, dC, ldI, ldO>>
 
 Ev == TraceLog[l]
 More == l <= Len(TraceLog)
 IsEvent(e) == More /\ Ev.e = e /\ l' = l + 1
 IsHook(p) == IsEvent("hook") /\ Ev.p = p
 StatusOf(a) == CASE a = 0 -> "S" [] a = 1 -> "H" [] a = 2 -> "T"
-KeepT == UNCHANGED <<dS, dC>>
+KeepT == UNCHANGED <<dS, dC, ldI, ldO>>
 
-TInit == Init /\ l = 1 /\ dS = 0 /\ dC = 0
+TInit == Init /\ l = 1 /\ dS = 0 /\ dC = 0 /\ ldI = TRUE /\ ldO = TRUE
 
 TReset ==
     /\ IsEvent("reset")
     /\ status' = "S" /\ lock' = "free" /\ inQ' = <<>> /\ outQ' = <<>> /\ inRest' = <<>> /\ outRest' = <<>>
     /\ sin' = <<>> /\ cout' = <<>> /\ junk' = {} /\ fedC' = <<>> /\ fedS' = <<>> /\ nIn' = 0 /\ nOut' = 0
     /\ pcI' = "read" /\ bufI' = <<>> /\ stI' = "S" /\ pcO' = "read" /\ bufO' = <<>> /\ stO' = "S" /\ pcW' = "off"
-    /\ confirm' = Ev.confirm /\ dS' = 0 /\ dC' = 0
+    /\ confirm' = Ev.confirm /\ dS' = 0 /\ dC' = 0 /\ ldI' = TRUE /\ ldO' = TRUE
 
-TFeed == /\ IsEvent("feed") /\ KeepT
-         /\ IF Ev.side = "c" THEN InRead(Ev.u) ELSE OutRead(Ev.u)
+TFeed == /\ IsEvent("feed") /\ UNCHANGED <<dS, dC>>
+         /\ IF Ev.side = "c" THEN InRead(Ev.u) /\ ldI' = FALSE /\ ldO' = ldO
+                           ELSE OutRead(Ev.u) /\ ldO' = FALSE /\ ldI' = ldI
 
-TInLoad == IsHook("relay.in.load") /\ InLoad /\ stI' = StatusOf(Ev.a[1]) /\ KeepT
-TOutLoad == IsHook("relay.out.load") /\ OutLoad /\ stO' = StatusOf(Ev.a[1]) /\ KeepT
+(* an atomic load is not at a lock-protected point: it happened somewhere between the feed event and  *)
+(* its hook, so the load itself is a silent step (TStoreSilent) and the hook only confirms its value   *)
+TInLoad == /\ IsHook("relay.in.load") /\ ~ldI /\ pcI \in {"lock", "fwd"} /\ stI = StatusOf(Ev.a[1])
+           /\ ldI' = TRUE /\ UNCHANGED <<vars, dS, dC, ldO>>
+TOutLoad == /\ IsHook("relay.out.load") /\ ~ldO /\ pcO \in {"lock", "fwd"} /\ stO = StatusOf(Ev.a[1])
+            /\ ldO' = TRUE /\ UNCHANGED <<vars, dS, dC, ldI>>
 
 (* the hook does not say which reader parked: whichever is at its lock step *)
 TParkDone == /\ IsHook("relay.park.done") /\ KeepT
-             /\ \/ (InPark /\ pcI' = "read") \/ (OutPark /\ pcO' = "read")
+             /\ \/ (ldI /\ InPark /\ pcI' = "read") \/ (ldO /\ OutPark /\ pcO' = "read")
 TParkSkip == /\ IsHook("relay.park.skip") /\ KeepT
-             /\ \/ (InPark /\ pcI' = "fwd" /\ stI' = StatusOf(Ev.a[1]))
-                \/ (OutPark /\ pcO' = "fwd" /\ stO' = StatusOf(Ev.a[1]))
+             /\ \/ (ldI /\ InPark /\ pcI' = "fwd" /\ stI' = StatusOf(Ev.a[1]))
+                \/ (ldO /\ OutPark /\ pcO' = "fwd" /\ stO' = StatusOf(Ev.a[1]))
 
-TInFwd == IsHook("relay.in.fwd") /\ InFwd /\ stI = StatusOf(Ev.a[1]) /\ KeepT
-TOutFwd == IsHook("relay.out.fwd") /\ OutFwd /\ stO = StatusOf(Ev.a[1]) /\ KeepT
+TInFwd == IsHook("relay.in.fwd") /\ ldI /\ InFwd /\ stI = StatusOf(Ev.a[1]) /\ KeepT
+TOutFwd == IsHook("relay.out.fwd") /\ ldO /\ OutFwd /\ stO = StatusOf(Ev.a[1]) /\ KeepT
 TOutTrigger == IsHook("relay.out.trigger") /\ OutTrigger /\ KeepT
 
 (* atomic stores and CAS are not at a lock-protected point: the hook after them may be recorded  *)
 (* later than another goroutine's load that already saw the new value, so they are silent steps  *)
 (* and their hooks only confirm that they have happened                                           *)
 TStoreSilent == /\ More /\ UNCHANGED l /\ KeepT
-                /\ \/ OutStoreH \/ InMark \/ OutMark \/ WkStore
+                /\ \/ OutStoreH \/ InMark \/ OutMark \/ WkStore \/ InLoad \/ OutLoad
 TReset2 == IsHook("relay.reset") /\ KeepT /\ UNCHANGED vars
 
 THsAct == IsHook("relay.hs.act") /\ KeepT /\ pcW = "sendAct" /\ UNCHANGED vars
@@ -68,7 +74,7 @@ TFlushDone == IsHook("relay.flush.done") /\ KeepT /\ WkUnlock
 
 (* a writer received bytes: they must be the next undelivered tokens of the model's stream *)
 TDeliver ==
-    /\ IsEvent("deliver") /\ UNCHANGED vars
+    /\ IsEvent("deliver") /\ UNCHANGED <<vars, ldI, ldO>>
     /\ IF Ev.to = "s"
        THEN /\ dS + Len(Ev.u) <= Len(sin) /\ SubSeq(sin, dS + 1, dS + Len(Ev.u)) = Ev.u
             /\ dS' = dS + Len(Ev.u) /\ dC' = dC
